@@ -438,7 +438,7 @@ def run_job(job):
                            dict(kind='robots-status', status=status, body=body))
         res['samples'].append(dict(surface='robots.txt status', statuses=job['statuses']))
     else:
-        for name in E2E:
+        for name in list(E2E) + ['cookie-flood']:
             v = run_e2e(name)
             res['evaluations'] += 1
             tally(v)
@@ -654,8 +654,43 @@ def run_robots_e2e(status, body):
     return None
 
 
+def run_cookie_flood():
+    """More cookies than the jar keeps per domain (50), set from several directories and
+    with hostile attributes: header data, however plentiful, must not end the crawl."""
+    from vt.appharn import AppRun
+    pages = {'/': {'links': ['/p%d' % i for i in range(7)] + ['/dir/q', '/dir2/sub/r', '/last']}}
+    for i in range(7):
+        pages['/p%d' % i] = {'links': [], 'headers': [
+            ['Set-Cookie', 'c%d_%d=v%d' % (i, k, k)] for k in range(10)]}
+    pages['/dir/q'] = {'links': [], 'headers': [['Set-Cookie', 'deep=1'],
+                                                 ['Set-Cookie', 'deep2=2; Path=/other/place']]}
+    pages['/dir2/sub/r'] = {'links': [], 'headers': [
+        ['Set-Cookie', 'x=' + 'y' * 5000], ['Set-Cookie', 'dom=1; Domain=a.test; Path=/zz'],
+        ['Set-Cookie', 'c0_0=replaced'], ['Set-Cookie', '=noname'], ['Set-Cookie', ';;;']]}
+    pages['/last'] = {'links': []}
+    site = {'hosts': {'a.test': pages}}
+    argv = ['http://a.test/', '-r', '--no-robots', '--delete-after', '--waitretry', '0',
+            '--tries', '1']
+    out = AppRun(site, argv, Chooser(), early=False).run()
+    if out['result'] != 'ok':
+        return 'crawl does not terminate: %s' % out['result']
+    if out['exc']:
+        return 'application raised %s' % out['exc'][:80]
+    if out['exit'] == 1:
+        return 'exit status 1 (generic error / crash)'
+    if out['loop_errors']:
+        return 'unretrieved exception %r' % (out['loop_errors'][:1],)
+    got = {q['target'] for q in out['requests']}
+    for want in pages:
+        if want not in got:
+            return '%s was not fetched after the cookie flood' % want
+    return None
+
+
 def run_e2e(name):
     from vt.appharn import AppRun
+    if name == 'cookie-flood':
+        return run_cookie_flood()
     site = {'hosts': {'a.test': {
         '/': {'links': ['/hostile', '/sibling']},
         '/hostile': {'raw': E2E[name], 'close': True},
